@@ -2926,7 +2926,13 @@ SKIP_HSHEADER_PARSE:
         }
         if (ssl->sid->sessionTicket == NULL || ssl->sid->sessionTicketLen == 0)
         {
-            /* First time receiving a session ticket */
+            /* First time receiving a session ticket (an empty ticket of an
+               earlier connection may have left a block behind) */
+            if (ssl->sid->sessionTicket != NULL)
+            {
+                psFree(ssl->sid->sessionTicket, ssl->sid->pool);
+                ssl->sid->sessionTicket = NULL;
+            }
             ssl->sid->sessionTicketLen = hsLen;
             /* This client has a dedicated SessionId pool to draw from. */
             if ((ssl->sid->sessionTicket = psMalloc(ssl->sid->pool,
